@@ -119,19 +119,17 @@ Definition init_state (p : project) (c : config) : cstate :=
   {| s_src := p; s_cfg := c; s_out := fun _ => None; s_cache := None |}.
 
 (* ---- recorded classes (known findings), as narrow as the defect ----
-   1..8: the i-th unhashed component differs between the generation the record stems from and the
-   current inputs while the fingerprints agree (generation_cache.rs hash_* omit the field);
-   9: a file the record vouches for is missing (needs_regeneration never looks at the files). *)
-Fixpoint diff_idx (n : nat) (l m : list tree) : list nat :=
-  match l, m with
-  | x :: l', y :: m' => (if tree_eqb x y then [] else [n]) ++ diff_idx (S n) l' m'
-  | _, _ => []
-  end.
-
+   6: the discovered events differ, 8: the command line numbers differ while visualize_deps is on -
+      between the generation the record stems from and the current inputs, while the fingerprints agree
+      (neither is part of any hash);
+   9: a file the record vouches for is missing (needs_regeneration never looks at the files).
+   (1..5 and 7 were repaired by C08-C14-hash-inputs: those data are hashed now.) *)
 Definition kf_C08_unhashed (w : sched) (st : cstate) (g : cgen) : list nat :=
   let '(w0, p0, c0) := g in
   if tree_eqb (fp w0 p0 c0) (fp w (s_src st) (s_cfg st))
-  then diff_idx 1 (unhashed w0 p0 c0) (unhashed w (s_src st) (s_cfg st)) else [].
+  then (if tree_eqb (u_events (analyse w0 p0)) (u_events (analyse w (s_src st))) then [] else [6]) ++
+       (if tree_eqb (u_lines (analyse w0 p0) c0) (u_lines (analyse w (s_src st)) (s_cfg st)) then [] else [8])
+  else [].
 
 Definition kf_C08_file_loss (st : cstate) (g : cgen) : list nat :=
   let '(w0, p0, c0) := g in
@@ -144,11 +142,6 @@ Definition kf_C08 (w : sched) (sg : cstate * option cgen) : list nat :=
   if has_commands (s_src st) && negb (g_force (s_cfg st)) && cache_hit_c false w st then
     match g with Some g0 => kf_C08_unhashed w st g0 ++ kf_C08_file_loss st g0 | None => [] end
   else [].
-
-(* C14: the two schedules disagree on the fingerprint (commands hashed in discovery order,
-   type mappings serialised in map order) *)
-Definition kf_C14_order (w1 w2 : sched) (p : project) (c : config) : bool :=
-  negb (tree_eqb (fp w1 p c) (fp w2 p c)).
 
 (* C14: the two runs differ only in how the project path is spelled (./src-tauri, src-tauri, absolute):
    file_path, which follows the spelling, is part of hash_commands / hash_structs *)
